@@ -668,6 +668,23 @@ def _could_contain(cs, lit):
     return False
 
 
+def _symre_call(name, args, kw):
+    """re.<name>(pattern, ...) with symbolic subject / replacement text: the matcher of sxv.symre"""
+    from sxv import symre
+    if type(args[0]) in (SymStr, SymTok):
+        raise Unmodelled('regular expression built from symbolic text')
+    return symre.FUNCS[name](*args, **kw)
+
+
+def _mk_re_handler(name, real):
+    def h(args, kw):
+        for a in args[:3]:
+            if type(a) in (SymStr, SymTok):
+                return _symre_call(name, args, kw)
+        return real(*args, **kw)
+    return h
+
+
 def _h_re_sub(args, kw):
     if len(args) >= 3 and type(args[2]) in (SymStr, SymTok):
         pat = args[0].pattern if hasattr(args[0], 'pattern') else args[0]
@@ -676,9 +693,9 @@ def _h_re_sub(args, kw):
             cs = chars_of(args[2])
             if not any(_could_contain(cs, lit) for lit in ('width;', 'height;', 'depth;')):
                 return args[2] if type(args[2]) is SymStr else args[2].value
-        raise Unmodelled('re.sub on symbolic text')
+        return _symre_call('sub', args, kw)
     if len(args) >= 2 and type(args[1]) in (SymStr, SymTok):
-        raise Unmodelled('re.sub with symbolic replacement')
+        return _symre_call('sub', args, kw)
     if len(args) >= 3 and callable(args[1]) and isinstance(args[2], str) and not kw and len(args) == 3 and core.CUR is not None:
         # replacement computed by a callable on concrete text: the callable may return symbolic text
         pat = args[0] if hasattr(args[0], 'finditer') else _re.compile(args[0])
@@ -818,6 +835,8 @@ def _sx_call(f, *args, **kw):
             if sym:
                 if f.__name__ == 'sub':
                     return _h_re_sub((s,) + args, kw)
+                if f.__name__ in ('search', 'match', 'fullmatch', 'finditer', 'findall', 'split', 'subn'):
+                    return _symre_call(f.__name__, (s,) + args, kw)
                 raise Unmodelled('re.Pattern.%s on symbolic text' % f.__name__)
             return f(*args, **kw)
         if type(s) is str and f.__name__ == 'join' and len(args) == 1:
@@ -912,6 +931,8 @@ except ImportError:
 
 _HANDLERS_PY = {_os.path.dirname: _h_dirname, _shlex.split: _h_shlex_split, _os.path.splitext: _h_splitext, _re.sub: _h_re_sub, _string.Template.substitute: _h_template_substitute}
 _HANDLERS_PY.update(_UNIDECODE)
+for _n in ('search', 'match', 'fullmatch', 'finditer', 'findall', 'split', 'subn'):
+    _HANDLERS_PY[getattr(_re, _n)] = _mk_re_handler(_n, getattr(_re, _n))
 _METHOD = type(_string.Template('x').substitute)
 
 
